@@ -53,6 +53,13 @@ def meta_value_for_mutation(prop, value):
     if prop == 'indexes':
         out = []
         for ix in value:
+            if ix.get('lower'):
+                from django.db.models.functions import Lower
+                expr = (Lower(ix['lower']),)
+                out.append({'name': ix['name'],
+                            'expressions': list(expr)
+                            if ix.get('as_list') else expr})
+                continue
             d = {'fields': list(ix['fields']), 'name': ix['name']}
             if ix.get('condition'):
                 d['condition'] = q_value(ix['condition'])
